@@ -136,6 +136,9 @@ func c08(r *core.Run) {
 			if rel == "" {
 				continue
 			}
+			if pureSelect(b) {
+				continue // max/min of the two values: selects a number, decides nothing about liveness
+			}
 			r.Analysed(core.FnName(fn))
 			// where does height==Expires go? to the edge whose relation includes equality.
 			eqLive := rel == "<=" || rel == ">" // true edge is "<=" (live incl. equality) or false edge is "<="
@@ -194,4 +197,27 @@ func c08(r *core.Run) {
 	if h := core.HandlerByKey(hs, "rns.MsgAcceptBid"); h != nil {
 		payout("rns.MsgAcceptBid", signerOf(p, h), "⊵ signer only", onlyStoreField(rnsBids, ".Price"), "⊵ Bids.Price only")
 	}
+}
+
+// pureSelect: the branch only chooses between values (both arms fall straight into one join block, computing at most
+// side-effect-free values on the way): x = max(a, b) and the like.
+func pureSelect(b *ssa.BasicBlock) bool {
+	if len(b.Succs) != 2 {
+		return false
+	}
+	target := func(s *ssa.BasicBlock) *ssa.BasicBlock {
+		if len(s.Preds) != 1 || len(s.Succs) != 1 {
+			return s
+		}
+		for _, in := range s.Instrs {
+			switch in.(type) {
+			case *ssa.Jump, *ssa.Field, *ssa.FieldAddr, *ssa.UnOp, *ssa.BinOp, *ssa.Convert, *ssa.ChangeType, *ssa.DebugRef:
+			default:
+				return s
+			}
+		}
+		return s.Succs[0]
+	}
+	t0, t1 := target(b.Succs[0]), target(b.Succs[1])
+	return t0 == t1 && (t0 != b.Succs[0] || t1 != b.Succs[1])
 }
